@@ -140,3 +140,18 @@ func (v *verifier) processSignature'''),
       find='if err := envelope.ValidatePayloadContentType(&envContent.Payload); err != nil {',
       replace='if err := envelope.ValidatePayloadContentType(&envContent.Payload); err != nil || envContent.Payload.ContentType != envelope.MediaTypePayloadV1 {'),
 ]
+
+# the comparison kept in a boolean variable (short-circuit value), then tested once
+BM_OLD = '\tif desc.Digest != payload.TargetArtifact.Digest || desc.Size != payload.TargetArtifact.Size ||\n\t\t(desc.MediaType != "" && desc.MediaType != payload.TargetArtifact.MediaType) {\n'
+def bm(expr):
+    return '\tblobMatches := ' + expr + '\n\tif !blobMatches {\n'
+VARIANTS += [
+ dict(name='benign-blob-match-in-a-variable', file=V, expect='silent', find=BM_OLD,
+      replace=bm('desc.Digest == payload.TargetArtifact.Digest &&\n\t\tdesc.Size == payload.TargetArtifact.Size &&\n\t\t(desc.MediaType == "" || desc.MediaType == payload.TargetArtifact.MediaType)')),
+ dict(name='blob-match-variable-without-size', file=V, expect='flagged(blob/size-equal)', find=BM_OLD,
+      replace=bm('desc.Digest == payload.TargetArtifact.Digest &&\n\t\t(desc.MediaType == "" || desc.MediaType == payload.TargetArtifact.MediaType)')),
+ dict(name='blob-match-variable-digest-or-size', file=V, expect='flagged(blob/)', find=BM_OLD,
+      replace=bm('(desc.Digest == payload.TargetArtifact.Digest || desc.Size == payload.TargetArtifact.Size) &&\n\t\t(desc.MediaType == "" || desc.MediaType == payload.TargetArtifact.MediaType)')),
+ dict(name='blob-match-variable-tested-the-wrong-way', file=V, expect='flagged(blob/)', find=BM_OLD,
+      replace='\tblobMatches := desc.Digest == payload.TargetArtifact.Digest &&\n\t\tdesc.Size == payload.TargetArtifact.Size &&\n\t\t(desc.MediaType == "" || desc.MediaType == payload.TargetArtifact.MediaType)\n\tif blobMatches {\n'),
+]
